@@ -479,6 +479,17 @@ def deliveries_for(rng: Any, data: bytes, ops: Sequence[Tuple], n_direct: int, w
         # readuntil is specified while reading is not paused: no limit for those; small limits for the others
         limit = 0 if (uses_until or i % 2 == 0) else rng.choice([1, 3, 8])
         out.append(('direct-text' if i % 5 == 4 else 'direct', limit, make_delivery(rng, ck, ops)))
+    if uses_until and ops and ops[0][0] == 'X' and 1 <= ops[0][1] < len(data):
+        # reading pauses because the whole stream arrives before the first call and fills the buffer; the first
+        # (exact) read leaves less than the limit, so reading must resume and every later call, readuntil included,
+        # behaves as with no limit at all
+        n0 = ops[0][1]
+        ck = G.gen_chunking(rng, data)
+        toks: List[Tuple] = [('G', [('d', c) for c in ck])]
+        for t in ops:
+            toks.append(t)
+        toks.append(('G', [('e',)]))
+        out.append(('direct', len(data) - n0 + 1, toks))
     if with_wire:
         window = 4096 if uses_until else rng.choice([8, 16, 64])
         ck = G.gen_chunking(rng, data, max(1, window // 2))
@@ -504,7 +515,9 @@ SPEC_CORPUS = [(b'ab\r\ncd', [('V', b'\r\n'), ('R', -1)]), (b'aaab', [('V', b'aa
                (b'hello\nworld', [('L',), ('L',), ('L',)]), (b'0123456789', [('X', 3), ('X', 3), ('X', 3), ('X', 3)]),
                (b'0123456789', [('X', 20), ('X', 1)]), (b'ab', [('U', [b'\n', b'\r\n'])]),
                (b'ab\r\ncd', [('U', [b'\n', b'\r\n']), ('R', 1), ('R', -1)]), (b'', [('R', -1), ('X', 1), ('L',)]),
-               (b'aXbXXc', [('P', 2, [b'XX'])]), (b'abcabc', [('R', 4), ('X', 2)])]
+               (b'aXbXXc', [('P', 2, [b'XX'])]), (b'abcabc', [('R', 4), ('X', 2)]),
+               (b'xxxxxxxxxxtail-begin-tail-end\nrest', [('X', 5), ('L',), ('R', -1)]),
+               (b'0123456789abcdef;gh', [('X', 10), ('V', b';'), ('X', 2)])]
 
 
 def oracle_spec(ctx: Ctx, res: OracleResult, hist: Hist) -> None:
